@@ -287,7 +287,7 @@ def _configs(ctx: Check):
     for rw in range(1, 9):
         for ww in range(1, 9):
             c = max(rw, ww)
-            for rows in (1, 2, 3, 5):
+            for rows in (1, 2, 3) + ((5,) if (rw + ww) % 3 == 0 else ()):
                 out.add((c * rows, rw, ww))
     out |= {(64, 8, 8), (60, 6, 5), (33, 11, 4), (32, 1, 16), (26, 13, 13)}
     return sorted(out)
@@ -304,8 +304,8 @@ def gen_cases(ctx: Check):
     rng = ctx.rng("gen")
     cases, malformed = [], []
     for k, (depth, rw, ww) in enumerate(_configs(ctx)):
-        n = ctx.pick(90 if max(rw, ww) <= 4 else 60, 300)  # wide instances simulate 3-5x slower
-        mxs = (0, 1) if (depth <= 4 or ctx.thorough and k % 4 == 0) else ((k + ctx.seed) % 2,)
+        n = ctx.pick(90 if max(rw, ww) <= 4 else 60, 200)  # wide instances simulate 3-5x slower
+        mxs = (0, 1) if (depth <= 2 or ctx.thorough and (depth <= 4 or k % 4 == 0)) else ((k + ctx.seed) % 2,)
         for mx in mxs:
             dw = 6 if (k + mx) % 7 else (1 if k % 2 else 33)
             cfgt = (depth, rw, ww, mx, dw)
